@@ -27,12 +27,21 @@ type composeCase struct {
 	build func(it *Interp, s *State) (args []AV, ctx interface{})
 }
 
+// composeStep names the next function to call on a finished state and its arguments.
+type composeStep func(it *Interp, st *State, ctx interface{}) (fn string, args []AV, ok bool)
+
 type composeSpec struct {
+	tag     string                              // distinguishes two specs with the same entry in construct names
 	entry   string                              // ShortKey of the composing function
 	desc    string                              // the stated combination
 	oracles map[string]func(fn *ssa.Function) oracleFunc // ShortKey of callee -> outcomes
 	cases   []composeCase
 	judge   func(it *Interp, ctx interface{}, st *State) string // "" = the path agrees with the stated combination
+	// steps: further calls made on every finished state of the previous call
+	// (the step reads the previous result from the state)
+	steps []composeStep
+	// precise: byte-precise library models (interp_precise.go)
+	precise bool
 	// intervals: float intervals are propagated through arithmetic (interp_intervals.go)
 	intervals bool
 	// anyPath: judge every finished path, whatever it branched on (the judge
@@ -146,10 +155,19 @@ func ruleCompose(mk func(thorough bool) []composeSpec, floor int) ruleFunc {
 		specs := mk(c.Thorough())
 		c.R.Rule("A-comp: the composing function is run by the abstract interpreter on every small shape with its callees uninterpreted (each call forks per possible answer and is logged with the identities of its arguments); on every finished path the result must equal the stated combination of the logged answers, and the logged answers must determine it")
 		lim := Limits{MaxStates: 20000, MaxSteps: 60000, MaxVisits: 64, MaxDepth: 40}
-		it := NewInterp(p, lim)
-		it.KeepFinished = true
+		itPlain := NewInterp(p, lim)
+		itPlain.KeepFinished = true
+		var itPrecise *Interp
 		n := 0
 		for _, sp := range specs {
+			it := itPlain
+			if sp.precise {
+				if itPrecise == nil {
+					itPrecise = NewInterpPrecise(p, lim)
+					itPrecise.KeepFinished = true
+				}
+				it = itPrecise
+			}
 			fn := p.funcByShortKey(sp.entry)
 			if fn == nil {
 				c.R.Unknown("A-comp", sp.entry, "", "composing function not found")
@@ -158,6 +176,7 @@ func ruleCompose(mk func(thorough bool) []composeSpec, floor int) ruleFunc {
 			it.Oracles = map[*ssa.Function]oracleFunc{}
 			it.Terms = sp.terms
 			it.Intervals = sp.intervals
+			it.Precise = sp.precise
 			it.NonNeg, it.Positive = nil, nil
 			missing := ""
 			var okeys []string
@@ -180,6 +199,9 @@ func ruleCompose(mk func(thorough bool) []composeSpec, floor int) ruleFunc {
 			for _, cs := range sp.cases {
 				n++
 				cons := fmt.Sprintf("%s(%s)", sp.entry, cs.label)
+				if sp.tag != "" {
+					cons = fmt.Sprintf("%s[%s](%s)", sp.entry, sp.tag, cs.label)
+				}
 				func() {
 					defer func() {
 						if x := recover(); x != nil {
@@ -197,6 +219,28 @@ func ruleCompose(mk func(thorough bool) []composeSpec, floor int) ruleFunc {
 					args, ctx := cs.build(it, s)
 					it.pushFrame(s, fn, args, nil, nil)
 					it.Run(s)
+					for _, step := range sp.steps {
+						cur := it.Finished
+						var next []*State
+						for _, st := range cur {
+							name, sargs, ok := step(it, st, ctx)
+							if !ok {
+								next = append(next, st) // the path ends here (nothing to feed on)
+								continue
+							}
+							sf := p.funcByShortKey(name)
+							if sf == nil {
+								c.R.Unknown("A-comp", cons, "", "step function "+name+" not found")
+								return
+							}
+							st.done, st.result = false, nil
+							it.Finished = nil
+							it.pushFrame(st, sf, sargs, nil, nil)
+							it.Run(st)
+							next = append(next, it.Finished...)
+						}
+						it.Finished = next
+					}
 					pos := p.Pos(fn.Pos())
 					if it.Truncated > 0 {
 						c.R.Unknown("A-comp", cons, pos, fmt.Sprintf("exploration truncated (%v); the composition is not decided", it.TruncWhy))
